@@ -657,6 +657,8 @@ def run(ctx):
     data_label_lookup(ctx)
     compile_time_partial_ops(ctx)
     asserted_preconditions(ctx)
+    from .. import gensim
+    gensim.check_generator_totality(ctx, 'C06')
     try:
         from .. import grammar_shapes
     except ImportError:
